@@ -46,6 +46,7 @@ PAIRS = [
     ("knotvector.normalize()", _h(gens.COMPOSED_CALLS, "method:KnotVector.normalize"), [(facade.NORMALIZE, "knotspace", "KnotVector.normalize", None)], None, None, ()),
     ("GeneratorKnotVector.integer(p, n, cls)", _h(gens.COMPOSED_CALLS, "static:GeneratorKnotVector.integer"), [(gens.INTEGER, "knotspace", "GeneratorKnotVector.integer", None)], None, None, ()),
     ("GeneratorKnotVector.weight(p, w)", _h(gens.COMPOSED_CALLS, "static:GeneratorKnotVector.weight"), [(gens.WEIGHT, "knotspace", "GeneratorKnotVector.weight", None)], None, None, ()),
+    ("Calculus.difference_vector(knotvector)", misc.h_difference_vector, [(misc.DIFFERENCE_VECTOR, "heavy", "Calculus.difference_vector", None)], None, None, ()),
     ("copy.__iadd__(nodes)", _h(facade2.OP_CALLS, "method:KnotVector.__iadd__"), [(facade.IADD_NODES, "knotspace", "KnotVector.__iadd__", None)], None, None, ()),
     ("copy.__isub__(nodes)", _h(facade2.OP_CALLS, "method:KnotVector.__isub__"), [(facade.ISUB_NODES, "knotspace", "KnotVector.__isub__", None)], None, None, ()),
     ("copy.__ior__(other)", _h(facade2.OP_CALLS, "method:KnotVector.__ior__"), [(facade.IOR, "knotspace", "KnotVector.__ior__", None)], None, None, ()),
@@ -62,8 +63,6 @@ ASSUMED = [
     "internal | other, internal & other as seen by the KnotVector facade (facade.h_or_ikv): callee contracts proved in kvor.py at another abstraction (ghost multiplicity functions); conformance not run",
     "internal = sequence (the constructor as seen by the internal setter), copy.__imul__ / __itruediv__ as seen by the non-in-place operators: callee contracts proved, the conformance query "
     "was not decided within 150 s (nonlinear scaling facts under quantifiers)",
-    "Calculus.difference_vector as seen by difference_matrix: the handler assumes degree >= 1 where the callee contract has no such precondition - refused by the conformance check, kept as an assumption "
-    "(difference_matrix is only reached with degree >= 1 in Derivate; engine S checks the values per shape in C09)",
 ]
 
 
